@@ -654,6 +654,281 @@ def binomial_sanity(ctx):
     return out
 
 
+# ------------------------------------------------------------------ multi-call sessions (one layer object, several forwards, backward in any order)
+class DSession:
+    """Dropout: switches on tree nodes, 2-3 forwards through the root, backward of each call's output in any order
+    (possibly interleaved with later forwards), or one joint backward through y_1 + ... + y_n (a layer shared by branches)."""
+
+    def __init__(self, rng):
+        self.p = rng.choice([0.25, 0.5, 0.5, 0.75, 0.1])
+        self.tree = rng.choice(TREE_NAMES)
+        nf = rng.choice([2, 2, 3])
+        base = tuple(rng.choice([1, 2, 3]) for _ in range(rng.randint(1, 2)))
+        same = rng.random() < 0.75
+        nz = [v for v in range(-12, 13) if v != 0]
+        self.calls = []
+        for k in range(nf):
+            shape = base if (same or k == 0) else tuple(rng.choice([1, 2, 3, 4]) for _ in range(len(base)))
+            size = 1
+            for d in shape:
+                size *= d
+            self.calls.append({"shape": list(shape), "x": [Fraction(rng.choice(nz), 4) for _ in range(size)],
+                               "g": [Fraction(rng.choice(nz), 8) for _ in range(size)], "seed": rng.randrange(1 << 30)})
+        self.joint = same and rng.random() < 0.25
+        if self.joint:
+            for c in self.calls[1:]:
+                c["g"] = list(self.calls[0]["g"])
+        self.events = []
+        pending = []
+        for k in range(nf):
+            if rng.random() < 0.35:
+                for pth, b in random_switches(rng, self.tree, 1):
+                    self.events.append(("Set", list(pth), b))
+                if rng.random() < 0.6:
+                    self.events.append(("Set", [], True))
+            self.events.append(("F", k))
+            pending.append(k)
+            if not self.joint and rng.random() < 0.3:
+                self.events.append(("B", pending.pop(rng.randrange(len(pending)))))
+        rng.shuffle(pending)
+        if self.joint:
+            pending.sort()
+        for k in pending:
+            self.events.append(("B", k))
+
+    @classmethod
+    def from_descr(cls, d):
+        c = cls.__new__(cls)
+        c.p, c.tree, c.joint = d["p"], d["tree"], d["joint_backward_through_sum"]
+        c.calls = [{"shape": cl["shape"], "x": [Fraction(v) for v in cl["x"]], "g": [Fraction(v) for v in cl["g"]], "seed": cl["numpy_seed"]} for cl in d["calls"]]
+        c.events = [tuple(e) for e in d["events"]]
+        return c
+
+    def descr(self):
+        return {"p": self.p, "tree": self.tree, "layer_path": TREES[self.tree]["lp"], "joint_backward_through_sum": self.joint,
+                "calls": [{"shape": c["shape"], "x": [str(v) for v in c["x"]], "g": [str(v) for v in c["g"]], "numpy_seed": c["seed"]} for c in self.calls],
+                "events": [list(e) for e in self.events]}
+
+    def modes(self):
+        """expected mode of the layer at each forward: last train()/eval() call on the layer or an ancestor"""
+        m, out = True, {}
+        for e in self.events:
+            if e[0] == "Set" and is_prefix(e[1], TREES[self.tree]["lp"]):
+                m = e[2]
+            elif e[0] == "F":
+                out[e[1]] = m
+        return out
+
+
+def run_dsession_impl(ses):
+    impl = _impl()
+    np, sg, nn = impl.np, impl.synapgrad, impl.nn
+    impl.reset_modes()
+    layer = nn.Dropout(p=ses.p)
+    root, nodes = build_tree(nn, ses.tree, layer)
+    xs, ys, rs = {}, {}, {}
+    obs = []
+    done_joint = False
+    for e in ses.events:
+        if e[0] == "Set":
+            nodes[tuple(e[1])].train() if e[2] else nodes[tuple(e[1])].eval()
+            obs.append(None)
+        elif e[0] == "F":
+            c = ses.calls[e[1]]
+            np.random.seed(c["seed"])
+            rs[e[1]] = frl(np.random.rand(*c["shape"]))
+            np.random.seed(c["seed"])
+            xs[e[1]] = sg.Tensor(np.array([float(v) for v in c["x"]], dtype=np.float64).reshape(c["shape"]), requires_grad=True)
+            ys[e[1]] = root(xs[e[1]])
+            obs.append({"out": frl(np.asarray(ys[e[1]].data)), "raw": np.asarray(ys[e[1]].data).copy(), "same": ys[e[1]] is xs[e[1]]})
+        else:
+            c = ses.calls[e[1]]
+            g = sg.Tensor(np.array([float(v) for v in c["g"]], dtype=np.float64).reshape(c["shape"]))
+            if ses.joint:
+                if not done_joint:
+                    z = ys[0]
+                    for k in range(1, len(ses.calls)):
+                        z = z + ys[k]
+                    z.backward(g)
+                    done_joint = True
+            else:
+                ys[e[1]].backward(g)
+            obs.append({"grad": frl(np.asarray(xs[e[1]].grad.data)), "graw": np.asarray(xs[e[1]].grad.data).copy()})
+    return {"obs": obs, "r": rs}
+
+
+def dsession_tol(ses):
+    q = 1 - Fraction(float(ses.p))
+    return Fraction(0) if (q.numerator == 1 and is_pow2(q.denominator)) else Fraction(1, 2 ** 50)
+
+
+DS_HEADER = """From Coq Require Import List Bool Arith ZArith QArith Qabs.
+Import ListNotations.
+From SG Require Import Base.Cmp State.BNDropout State.ModeTree.
+Open Scope Q_scope.
+Definition rclose (tol a b : Q) : bool := Qle_bool (Qabs (a - b)) (tol * Qabs b).
+Record scase := { s_p : Q; s_tree : tree; s_lp : path; s_h : list dev; s_tol : Q; s_obs : list dobs }.
+Definition obs_ok (tol : Q) (m i : dobs) : bool :=
+  match m, i with
+  | DNone, DNone => true
+  | DOut a, DOut b => list_eqb (rclose tol) a b
+  | DGrad a, DGrad b => list_eqb (rclose tol) a b
+  | _, _ => false
+  end.
+Definition case_ok (c : scase) (_ : unit) : bool :=
+  list_eqb (obs_ok (s_tol c)) (dtrace (s_p c) (s_lp c) {| dtree := s_tree c; dnodes := [] |} (s_h c)) (s_obs c).
+"""
+
+
+def dsession_coq(ses, res):
+    evs, obs = [], []
+    for e, o in zip(ses.events, res["obs"]):
+        if e[0] == "Set":
+            evs.append("DSwitch %s %s" % (path_coq(e[1]), cb(e[2]))); obs.append("DNone")
+        elif e[0] == "F":
+            evs.append("DFwd %s %s" % (ql(res["r"][e[1]]), ql(ses.calls[e[1]]["x"]))); obs.append("DOut %s" % ql(o["out"]))
+        else:
+            evs.append("DBwd %d%%nat %s" % (e[1], ql(ses.calls[e[1]]["g"]))); obs.append("DGrad %s" % ql(o["grad"]))
+    return "({| s_p := %s; s_tree := %s; s_lp := %s; s_h := %s; s_tol := %s; s_obs := %s |}, tt)" % (
+        cq(Fraction(float(ses.p))), TREES[ses.tree]["coq"], path_coq(TREES[ses.tree]["lp"]), clist(evs), cq(dsession_tol(ses)), clist(obs))
+
+
+def judge_dsession(ses, res):
+    """x_k.grad = g_k * m_k/(1-p) with the mask m_k recovered from call k's OWN output (no Coq)"""
+    impl = _impl()
+    np = impl.np
+    modes = ses.modes()
+    scale = np.float64(1.0) / (1 - float(ses.p))
+    outs, masks = {}, {}
+    for e, o in zip(ses.events, res["obs"]):
+        if e[0] == "F":
+            k = e[1]
+            x = np.array([float(v) for v in ses.calls[k]["x"]])
+            out = o["raw"].reshape(-1)
+            if modes[k]:
+                if o["same"]:
+                    return "call %d: training-mode forward returned its input" % k
+                masks[k] = out != 0
+                if not np.array_equal(out, np.where(masks[k], x * scale, 0.0)):
+                    return "call %d: output is not x*m/(1-p)" % k
+            else:
+                if not o["same"]:
+                    return "call %d: eval-mode forward is not the identity" % k
+        elif e[0] == "B":
+            k = e[1]
+            g = np.array([float(v) for v in ses.calls[k]["g"]])
+            graw = o["graw"].reshape(-1)
+            want = np.where(masks[k], g * scale, 0.0) if modes[k] else g
+            if not np.array_equal(graw, want):
+                later = [j for j in masks if j != k and len(masks[j]) == len(masks[k]) and np.array_equal(graw, np.where(masks[j], g * scale, 0.0))]
+                return "backward of call %d: x_%d.grad = %s, but g*m_%d/(1-p) with the mask of its own output is %s%s" % (
+                    k, k, graw.tolist(), k, want.tolist(), (" (it is the mask of call %d)" % later[0]) if later else "")
+    return None
+
+
+class BSession:
+    """BatchNorm in training mode: 2-3 forwards of the same layer object (same or different batch sizes), backward in any
+    order; judged against torch on the same sequence (outputs, x_k.grad, weight/bias grads)."""
+
+    def __init__(self, rng):
+        self.momentum = rng.choice([0.1, 0.5, None])
+        self.affine = rng.random() < 0.6
+        self.track = rng.random() < 0.7
+        self.C = rng.randint(1, 3)
+        self.rank = rng.choice([2, 3])
+        self.L = rng.choice([1, 2])
+        nf = rng.choice([2, 2, 3])
+        same = rng.random() < 0.6
+        N0 = rng.choice([2, 3, 4])
+        self.calls = []
+        for k in range(nf):
+            N = N0 if same else rng.choice([2, 3, 4, 5])
+            shape = (N, self.C) + ((self.L,) if self.rank == 3 else ())
+            size = 1
+            for d in shape:
+                size *= d
+            self.calls.append({"shape": list(shape), "x": [Fraction(rng.randint(-16, 16), 4) for _ in range(size)],
+                               "g": [Fraction(rng.randint(-8, 8), 4) for _ in range(size)]})
+        order = list(range(nf))
+        rng.shuffle(order)
+        self.order = order
+        self.interleave = rng.random() < 0.3         # backward of call 0 right after forward 1 (before forward 2)
+
+    @classmethod
+    def from_descr(cls, d):
+        c = cls.__new__(cls)
+        c.momentum, c.affine, c.track, c.C, c.rank, c.order, c.interleave = d["momentum"], d["affine"], d["track_running_stats"], d["num_features"], d["rank"], d["backward_order"], d["interleave"]
+        c.calls = [{"shape": cl["shape"], "x": [Fraction(v) for v in cl["x"]], "g": [Fraction(v) for v in cl["g"]]} for cl in d["calls"]]
+        return c
+
+    def descr(self):
+        return {"momentum": self.momentum, "affine": self.affine, "track_running_stats": self.track, "num_features": self.C, "rank": self.rank,
+                "calls": [{"shape": c["shape"], "x": [str(v) for v in c["x"]], "g": [str(v) for v in c["g"]]} for c in self.calls],
+                "backward_order": self.order, "interleave": self.interleave}
+
+    def schedule(self):
+        ev = []
+        done = set()
+        for k in range(len(self.calls)):
+            ev.append(("F", k))
+            if self.interleave and k == 1 and 0 not in done:
+                ev.append(("B", 0)); done.add(0)
+        ev += [("B", k) for k in self.order if k not in done]
+        return ev
+
+
+def run_bsession(ses, lib):
+    """lib = 'synapgrad' | 'torch' -> {outs, grads, wgrad, bgrad} as float arrays"""
+    impl = _impl()
+    np = impl.np
+    if lib == "torch":
+        import torch
+        layer = torch.nn.BatchNorm1d(ses.C, momentum=ses.momentum, affine=ses.affine, track_running_stats=ses.track, dtype=torch.float64)
+        mk = lambda a, rg: torch.tensor(a, dtype=torch.float64, requires_grad=rg)
+        val = lambda t: t.detach().numpy().copy()
+    else:
+        sg, nn = impl.synapgrad, impl.nn
+        impl.reset_modes()
+        layer = nn.BatchNorm1d(ses.C, momentum=ses.momentum, affine=ses.affine, track_running_stats=ses.track, dtype=np.float64)
+        mk = lambda a, rg: sg.Tensor(a, requires_grad=rg)
+        val = lambda t: np.asarray(t.data, dtype=np.float64).copy()
+    xs, ys, outs, grads = {}, {}, {}, {}
+    for e in ses.schedule():
+        c = ses.calls[e[1]]
+        if e[0] == "F":
+            xs[e[1]] = mk(np.array([float(v) for v in c["x"]]).reshape(c["shape"]), True)
+            ys[e[1]] = layer(xs[e[1]])
+            outs[e[1]] = val(ys[e[1]])
+        else:
+            ys[e[1]].backward(mk(np.array([float(v) for v in c["g"]]).reshape(c["shape"]), False))
+            grads[e[1]] = val(xs[e[1]].grad)
+    wg = val(layer.weight.grad) if ses.affine else None
+    bg = val(layer.bias.grad) if ses.affine else None
+    return {"outs": outs, "grads": grads, "wgrad": wg, "bgrad": bg}
+
+
+def judge_bsession(ses):
+    impl = _impl()
+    np = impl.np
+    try:
+        a = run_bsession(ses, "synapgrad")
+    except Exception as ex:
+        return "session raised %s: %s" % (type(ex).__name__, str(ex)[:100])
+    b = run_bsession(ses, "torch")
+
+    def close(u, v):
+        return np.allclose(u, v, rtol=1e-6, atol=1e-6 * (1 + float(np.abs(v).max())))
+    for k in range(len(ses.calls)):
+        if not close(a["outs"][k], b["outs"][k]):
+            return "call %d: output differs from torch by %g" % (k, float(np.abs(a["outs"][k] - b["outs"][k]).max()))
+        if not close(a["grads"][k], b["grads"][k]):
+            return "backward of call %d: x_%d.grad differs from torch by %g (statistics saved by call %d disturbed?)" % (
+                k, k, float(np.abs(a["grads"][k] - b["grads"][k]).max()), k)
+    if ses.affine and (not close(a["wgrad"], b["wgrad"]) or not close(a["bgrad"], b["bgrad"])):
+        return "weight/bias gradients accumulated over the calls differ from torch"
+    return None
+
+
 # ------------------------------------------------------------------ the check
 def gen_bn_cases(ctx):
     rng = ctx.rng
@@ -744,6 +1019,34 @@ def run(ctx):
                  "(p in {0, 1/2, 3/4}) or p >= 1, relative 2^-50 (float64) / 2^-22 (float32) otherwise; the layer sits in a random module tree and is "
                  "preceded by random train()/eval() calls on any node, the forward goes through the root; eval returns the input object")
 
+    # ---- tie 3: multi-call sessions ---------------------------------------------------------------
+    dsess = [DSession(ctx.rng) for _ in range(60 if ctx.quick else 400)]
+    dsres = [run_dsession_impl(x) for x in dsess]
+    bad, errs = coq_mismatches(ctx, "dsession", DS_HEADER, "scase", [dsession_coq(x, r) for x, r in zip(dsess, dsres)], "case_ok", chunk=100)
+    sm = list(errs) + [{"session": dsess[i].descr()} for i in bad]
+    ctx.sample({"dropout_session": dsess[0].descr()})
+    ctx.tie("dropout/multi-call sessions", "correspondence", len(dsess),
+            sum(1 for x in dsess if sum(1 for m in x.modes().values() if m) >= 2), sm,
+            note="one Dropout object called 2-3 times (same and different shapes) inside a module tree, mode switches in between, backward of each "
+                 "call's output in every order / interleaved with later forwards / jointly through y_1+...+y_n; out_k and x_k.grad compared with the model")
+    sverd = [(x, judge_dsession(x, r)) for x, r in zip(dsess, dsres)]
+    sfail = [(x, v) for x, v in sverd if v]
+    if sfail:
+        x, v = min(sfail, key=lambda t: (len(t[0].events), sum(len(c["x"]) for c in t[0].calls)))
+        ctx.witness("nn.Dropout.forward", "multi-call", {"session": x.descr()},
+                    "x_k.grad = g_k*m_k/(1-p) with the mask m_k recovered from call k's own output, whatever the same layer object was called with afterwards",
+                    {"verdict": v}, note="%d of %d sessions fail" % (len(sfail), len(sverd)))
+    bsess = [BSession(ctx.rng) for _ in range(40 if ctx.quick else 300)]
+    bverd = [(x, judge_bsession(x)) for x in bsess]
+    bfail = [(x, v) for x, v in bverd if v]
+    ctx.tie("batchnorm/multi-call backward vs torch", "reference", len(bsess), len(bsess), [{"session": x.descr(), "verdict": v} for x, v in bfail],
+            note="one BatchNorm1d object, 2-3 training-mode forwards (same / different batch sizes), backward in every order; outputs, x_k.grad and the "
+                 "accumulated weight/bias gradients against torch on the same sequence at 1e-6 (the statistics saved by call k must survive call k+1)")
+    if bfail:
+        x, v = min(bfail, key=lambda t: sum(len(c["x"]) for c in t[0].calls))
+        ctx.witness("nn.BatchNorm.forward", "multi-call", {"session": x.descr()},
+                    "backward of call k uses the batch statistics of call k", {"verdict": v}, note="%d of %d sessions fail" % (len(bfail), len(bverd)))
+
     # ---- oracle (independent of Coq) ---------------------------------------------------------------
     verd = [(c, o, judge_bn(c, o)) for c, o in zip(cases, obs)]
     failing = [(c, o, v) for c, o, v in verd if v]
@@ -782,6 +1085,14 @@ def replay(ctx, data):
     if data["class"] == "mask-distribution":
         bs = binomial_sanity(ctx)
         print(bs); return 0 if all(b["within_6_sigma"] for b in bs) else 1
+    if data["class"] == "multi-call":
+        if data["site"].startswith("nn.Dropout"):
+            x = DSession.from_descr(data["input"]["session"])
+            v = judge_dsession(x, run_dsession_impl(x))
+        else:
+            v = judge_bsession(BSession.from_descr(data["input"]["session"]))
+        print("verdict:", v)
+        return 1 if v else 0
     d = data["input"]["case"]
     if data["site"].startswith("nn.Dropout"):
         c = DOCase.from_descr(d)
